@@ -140,6 +140,15 @@ pub fn eq_w_for_slice(l: &[u8], r: &[u8]) -> bool { konst::const_eq_for!(slice; 
 pub fn eq_w_for_slice_key(l: &[i16], r: &[i16]) -> bool { konst::const_eq_for!(slice; l, r, |x| *x) }
 pub fn eq_w_for_slice_two(l: &[u8], r: &[u8]) -> bool { konst::const_eq_for!(slice; l, r, |a, b| konst::const_eq!(*a, *b)) }
 pub fn eq_w_for_slice_path(l: &[u8], r: &[u8]) -> bool { konst::const_eq_for!(slice; l, r, key_eq) }
+// const_eq_for!, range and range_inclusive arms, every comparator form
+pub fn eq_w_for_range(l: core::ops::Range<u8>, r: core::ops::Range<u8>) -> bool { konst::const_eq_for!(range; l, r) }
+pub fn eq_w_for_range_key(l: core::ops::Range<i16>, r: core::ops::Range<i16>) -> bool { konst::const_eq_for!(range; l, r, |x| *x) }
+pub fn eq_w_for_range_two(l: core::ops::Range<u8>, r: core::ops::Range<u8>) -> bool { konst::const_eq_for!(range; l, r, |a, b| konst::const_eq!(*a, *b)) }
+pub fn eq_w_for_range_path(l: core::ops::Range<u8>, r: core::ops::Range<u8>) -> bool { konst::const_eq_for!(range; l, r, key_eq) }
+pub fn eq_w_for_rangei(l: core::ops::RangeInclusive<u8>, r: core::ops::RangeInclusive<u8>) -> bool { konst::const_eq_for!(range_inclusive; l, r) }
+pub fn eq_w_for_rangei_key(l: core::ops::RangeInclusive<i16>, r: core::ops::RangeInclusive<i16>) -> bool { konst::const_eq_for!(range_inclusive; l, r, |x| **x) }
+pub fn eq_w_for_rangei_two(l: core::ops::RangeInclusive<u8>, r: core::ops::RangeInclusive<u8>) -> bool { konst::const_eq_for!(range_inclusive; l, r, |a, b| konst::const_eq!(**a, **b)) }
+pub fn eq_w_for_rangei_path(l: core::ops::RangeInclusive<u8>, r: core::ops::RangeInclusive<u8>) -> bool { konst::const_eq_for!(range_inclusive; l, r, key_eq) }
 // const_cmp! / const_eq! coercion on the supported types
 pub fn cmp_w_u8(l: u8, r: u8) -> Ordering { konst::const_cmp!(l, r) }
 pub fn cmp_w_i64(l: i64, r: i64) -> Ordering { konst::const_cmp!(l, r) }
